@@ -388,9 +388,10 @@ func (x *Exec) switchStmt(n *ast.SwitchStmt, st *State, fr *frame, k func(*State
 		}
 		inner := fr.child()
 		inner.breakK[""] = k
-		var negs []string
 		var deflt *ast.CaseClause
 		idx := 0
+		// the case expressions are evaluated in order, each only when the earlier cases did not match
+		rest := st
 		for _, c := range n.Body.List {
 			cc := c.(*ast.CaseClause)
 			if cc.List == nil {
@@ -398,14 +399,17 @@ func (x *Exec) switchStmt(n *ast.SwitchStmt, st *State, fr *frame, k func(*State
 				continue
 			}
 			idx++
+			if rest.dead {
+				break
+			}
 			var alts []string
 			for _, e := range cc.List {
-				v := x.eval(e, st)
+				v := x.eval(e, rest)
 				if tag != nil {
 					a, b := *tag, v
 					if a.Sort != b.Sort {
 						if a.Sort == "Iface" {
-							b = x.convert(st, b, a.T)
+							b = x.convert(rest, b, a.T)
 						} else {
 							x.unsupported(cc, "switch case sort mismatch")
 						}
@@ -416,12 +420,13 @@ func (x *Exec) switchStmt(n *ast.SwitchStmt, st *State, fr *frame, k func(*State
 				}
 			}
 			cond := or(alts...)
-			b := x.branch(st, and(append(append([]string(nil), negs...), cond)...), fmt.Sprintf("case%d", idx))
+			b := x.branch(rest, cond, fmt.Sprintf("case%d", idx))
 			x.noFallthrough(cc)
 			x.stmts(cc.Body, b, inner, k)
-			negs = append(negs, not(cond))
+			rest = x.branch(rest, not(cond), "")
 		}
-		d := x.branch(st, and(negs...), "default")
+		d := rest
+		d.tag("default")
 		if deflt != nil {
 			x.noFallthrough(deflt)
 			x.stmts(deflt.Body, d, inner, k)
@@ -722,6 +727,23 @@ func (x *Exec) staticSpecType(e ast.Expr, fn *types.Func) types.Type {
 			if f := findField(s, n.Sel.Name); f != nil {
 				return f.Type()
 			}
+		}
+	case *ast.IndexExpr:
+		bt := x.staticSpecType(n.X, fn)
+		if bt == nil {
+			return nil
+		}
+		switch u := bt.Underlying().(type) {
+		case *types.Map:
+			return u.Elem()
+		case *types.Slice:
+			return u.Elem()
+		}
+	case *ast.ParenExpr:
+		return x.staticSpecType(n.X, fn)
+	case *ast.CallExpr:
+		if id, ok := n.Fun.(*ast.Ident); ok && id.Name == "ite" && len(n.Args) == 3 {
+			return x.staticSpecType(n.Args[1], fn)
 		}
 	}
 	return nil
@@ -1208,6 +1230,7 @@ func (x *Exec) rangeStmt(n *ast.RangeStmt, label string, st *State, fr *frame, k
 	for _, g := range x.frameGoals(head, ms.mem) {
 		head.assume(g[1])
 	}
+	headSnap := head.clone()
 	body := x.branch(head, app("<", i.S, lenT), "body")
 	exit := x.branch(head, app("=", i.S, lenT), "exit")
 	if mapRange != nil {
@@ -1224,6 +1247,15 @@ func (x *Exec) rangeStmt(n *ast.RangeStmt, label string, st *State, fr *frame, k
 			s.vars[mapRange.vvar] = Term{S: app("store", v.S, mapRange.cur.S, "true"), Sort: v.Sort}
 		}
 		if lc != nil {
+			// step clauses: proved at the end of the iteration (the range index still names this iteration), then assumed
+			env := x.specEnvAt(s, pos)
+			env.head = headSnap
+			for _, c := range lc.Steps {
+				if f, ok := x.clause(c, env); ok {
+					x.oblige(s, fmt.Sprintf("step@loop%d", ord), c.Label, n, f)
+					s.assume(f)
+				}
+			}
 			nx := Term{S: app("+", i.S, "1"), Sort: "Int", T: intT}
 			x.bindRangeIndex(n, s, nx)
 			x.assertInv(lc, ord, s, pos, "inv-pres", n, nil)
@@ -1381,7 +1413,7 @@ func (x *Exec) frameGoals(st *State, only map[string]bool) [][2]string {
 		}
 		var excl []string
 		for _, r := range refs {
-			excl = append(excl, not(app("=", "p?f", r)))
+			excl = append(excl, or(app("=", "p?f", "0"), not(app("=", "p?f", r))))
 		}
 		goal := fmt.Sprintf("(forall ((p?f Int)) (! %s :pattern ((select %s p?f))))", imp(and(append(excl, app("<", "p?f", x.old.alloc.S), app("<=", "0", "p?f"))...), app("=", app("select", now.S, "p?f"), app("select", was.S, "p?f"))), now.S)
 		out = append(out, [2]string{k, goal})
@@ -1572,7 +1604,8 @@ func (x *Exec) applyContract(call ast.Node, c *FuncContract, key string, names m
 				}
 				var excl []string
 				for _, r := range refs {
-					excl = append(excl, not(app("=", "p?f", r)))
+					// the nil object is never written (a write through nil panics), whatever a target evaluates to
+					excl = append(excl, or(app("=", "p?f", "0"), not(app("=", "p?f", r))))
 				}
 				st.pc = append(st.pc, fmt.Sprintf("(forall ((p?f Int)) (! %s :pattern ((select %s p?f))))", imp(and(append(excl, app("<", "p?f", pre.alloc.S))...), app("=", app("select", nm, "p?f"), app("select", was.S, "p?f"))), nm))
 				st.mem[k] = Term{S: nm, Sort: was.Sort}
